@@ -45,7 +45,11 @@ Programs == <<
   <<1, 9, 3, 9, 4, 5, 12, 13, 32, 9, 12, 9, 3>>,          \* def a(a):\n    return a\na(
   <<2, 9, 5, 12, 13, 9, 8, 21, 12, 9, 6>>,                 \* class a:\n    a=1\na.
   <<11, 9, 10, 9, 12, 9, 6, 9>>,                           \* from a import a\na.a
-  <<9, 8, 28, 21, 7, 21, 29, 12, 19, 34, 20, 9, 5, 12, 13, 34, 6>>  \* a=[1,1]\nfor b in a:\n    b.
+  <<9, 8, 28, 21, 7, 21, 29, 12, 19, 34, 20, 9, 5, 12, 13, 34, 6>>,  \* a=[1,1]\nfor b in a:\n    b.
+  \* one value that is an instance of a class of the buffer OR a builtin (results mix names with and without position)
+  <<2, 9, 5, 12, 13, 9, 8, 21, 12, 34, 8, 9, 3, 4, 17, 21, 18, 21, 12, 34, 6>>,  \* class a:\n    a=1\nb=a()if 1 else 1\nb.
+  \* the same with the quick alphabet: the parameter is called with the function itself and with a string
+  <<1, 9, 3, 9, 4, 5, 12, 13, 9, 6, 12, 9, 3, 9, 4, 12, 9, 3, 14, 14, 4>>          \* def a(a):\n    a.\na(a)\na("")
 >>
 
 \* the token table is printed once so that the harness renders from the spec's own table
@@ -119,7 +123,9 @@ Next == /\ edits < MaxEdits /\ edits' = edits + 1
 \* for every relevant position
 RECURSIVE SumSeq(_)
 SumSeq(s) == IF s = <<>> THEN 0 ELSE (s[1] + 7 * SumSeq(Tail(s))) % 1000003
-Emit == (SumSeq(text) % EmitMod = EmitRem) =>
+\* the seeded slice of all buffers, and always the unedited programs themselves
+IsProgram(t) == \E p \in 1..Len(Programs) : t = Programs[p]
+Emit == (SumSeq(text) % EmitMod = EmitRem \/ (MaxPrefix > 0 /\ IsProgram(text))) =>
           LET L == Lines(text) IN
           PrintT(<<"CASE", ToJson([text |-> text, lines |-> L,
                    pos |-> [l \in 0..(Len(L) + 1) |->
